@@ -607,8 +607,12 @@ mcache_bkt(MCACHE *mp /* IN: MCACHE cookie */)
      */
     for (bp = mp->lqh.cqh_first; bp != (void *)&mp->lqh; bp = bp->q.cqe_next)
         if (!(bp->flags & MCACHE_PINNED)) { /* Flush if dirty. */
-            if (bp->flags & MCACHE_DIRTY && mcache_write(mp, bp) == RET_ERROR)
+            if (bp->flags & MCACHE_DIRTY && mcache_write(mp, bp) == RET_ERROR) {
+                /* the page stays in the cache, still linked in the hash and
+                   lru queues: the error cleanup below must not free it */
+                bp = NULL;
                 HE_REPORT_GOTO("unable to flush a dirty page", FAIL);
+            }
 #ifdef STATISTICS
             ++mp->pageflush;
 #endif
